@@ -81,7 +81,27 @@ func (fs *FileSystem) Store(bom *sbom.Document, opts *StoreOptions) error {
 		return fmt.Errorf("there is already an entry for the specified document (and NoClobber = true)")
 	}
 
-	if err := os.WriteFile(filepath.Join(fs.Options.Path, filename), out, os.FileMode(0o644)); err != nil {
+	// Write to a temporary file in the same directory and rename it over the
+	// entry: a crash while writing leaves the previous entry (or none) in
+	// place, never a partially written one.
+	tmp, err := os.CreateTemp(fs.Options.Path, filename+".tmp-*")
+	if err != nil {
+		return fmt.Errorf("writing data to disk: %w", err)
+	}
+	defer os.Remove(tmp.Name()) // no-op once renamed
+
+	if _, err := tmp.Write(out); err != nil {
+		tmp.Close()
+		return fmt.Errorf("writing data to disk: %w", err)
+	}
+	if err := tmp.Chmod(os.FileMode(0o644)); err != nil {
+		tmp.Close()
+		return fmt.Errorf("writing data to disk: %w", err)
+	}
+	if err := tmp.Close(); err != nil {
+		return fmt.Errorf("writing data to disk: %w", err)
+	}
+	if err := os.Rename(tmp.Name(), filepath.Join(fs.Options.Path, filename)); err != nil {
 		return fmt.Errorf("writing data to disk: %w", err)
 	}
 
